@@ -2,6 +2,36 @@
 use std::convert::Infallible;
 verus! {
 
+/// the events a list of captured ops stands for
+pub open spec fn evs_of(ops: Seq<DiffOp>) -> Seq<Ev> {
+    ops.map_values(|op: DiffOp| ev_of(op))
+}
+
+pub proof fn lemma_evs_of_push(ops: Seq<DiffOp>, op: DiffOp)
+    ensures evs_of(ops.push(op)) == evs_of(ops).push(ev_of(op)),
+{
+    assert(evs_of(ops.push(op)) =~= evs_of(ops).push(ev_of(op)));
+}
+
+/// `ev_of` is injective, so the event list determines the op list
+pub proof fn lemma_evs_of_inj(a: Seq<DiffOp>, b: Seq<DiffOp>)
+    requires evs_of(a) == evs_of(b),
+    ensures a == b,
+{
+    assert(a.len() == evs_of(a).len() && b.len() == evs_of(b).len());
+    assert forall|i: int| 0 <= i < a.len() implies a[i] == b[i] by {
+        assert(evs_of(a)[i] == ev_of(a[i]) && evs_of(b)[i] == ev_of(b[i]));
+        lemma_op_of_ev_of(a[i]); lemma_op_of_ev_of(b[i]);
+    }
+    assert(a =~= b);
+}
+
+// ASSUMPTION (trusted): `#[derive(Default)]` on `struct Capture(Vec<DiffOp>)` expands to
+// `Capture(Default::default())`, i.e. an empty list.  Verus does not give the derived impl a
+// specification (the derive output is outside the verified text), so its result is specified here.
+pub assume_specification[ <Capture as Default>::default ]() -> (res: Capture)
+    ensures res.ops_spec() == Seq::<DiffOp>::empty();
+
 //@@ item src/algorithms/capture.rs :: ^pub struct Capture rw=R7
 #[derive(Default, Clone)]
 pub struct Capture(Vec<DiffOp>);
@@ -9,14 +39,18 @@ pub struct Capture(Vec<DiffOp>);
 
 //@@ item src/algorithms/capture.rs :: ^impl Capture rw=R0 drop=fn\s+into_grouped_ops
 impl Capture {
+    /*@*/ /// the captured ops (the struct's field is private)
+    /*@*/ pub closed spec fn ops_spec(&self) -> Seq<DiffOp> { self.0@ }
     /// Creates a new capture hook.
     pub fn new() -> (res: Capture)
+    /*@*/     ensures res.ops_spec() == Seq::<DiffOp>::empty(),
     {
         Capture::default()
     }
 
     /// Converts the capture hook into a vector of ops.
     pub fn into_ops(self) -> (res: Vec<DiffOp>)
+    /*@*/     ensures res@ == self.ops_spec(),
     {
         self.0
     }
@@ -24,19 +58,31 @@ impl Capture {
 
     /// Accesses the captured operations.
     pub fn ops(&self) -> (res: &[DiffOp])
+    /*@*/     ensures res@ == self.ops_spec(),
     {
         &self.0
     }
 }
 //@@ end
 
-//@@ item src/algorithms/capture.rs :: ^impl DiffHook for Capture rw=R0,R4i
+//@@ item src/algorithms/capture.rs :: ^impl DiffHook for Capture rw=R4i,R0
 impl DiffHook for Capture {
     type Error = Infallible;
+    /*@*/ closed spec fn trace(&self) -> Seq<Ev> { evs_of(self.0@) }
+    /*@*/ closed spec fn failed(&self) -> bool { false }                      // Error = Infallible: no call fails
+    /*@*/ closed spec fn last_err(&self) -> Option<Self::Error> { None }
+    /*@*/ closed spec fn relies(&self) -> bool { false }                      // accepts any call sequence
+    /*@*/ closed spec fn rely_rel(&self) -> Rel { rel_true() }
+    /*@*/ closed spec fn rely_st(&self) -> St { run_rel(rel_true(), canon(0, 0, 0, 0), evs_of(self.0@)) }   // the checker replayed over what was captured (unused: relies() is false)
+    /*@*/ closed spec fn observes_finish() -> bool { false }                  // the no-op default finish
+    /*@*/ closed spec fn replace_is_atomic() -> bool { true }                 // overrides replace: one Replace op
+    /*@*/ closed spec fn accepts_replace(&self) -> bool { true }
 
     #[inline(always)]
     fn equal(&mut self, old_index: usize, new_index: usize, len: usize) -> (res: Result<(), Self::Error>)
+    /*@*/     ensures res.is_ok(), (*final(self)).ops_spec() == (*old(self)).ops_spec().push(DiffOp::Equal { old_index, new_index, len }),
     {
+        /*@*/ proof { lemma_evs_of_push(self.0@, DiffOp::Equal { old_index, new_index, len }); lemma_run_push(rel_true(), canon(0, 0, 0, 0), evs_of(self.0@), ev_of(DiffOp::Equal { old_index, new_index, len })); }
         self.0.push(DiffOp::Equal {
             old_index,
             new_index,
@@ -52,7 +98,9 @@ impl DiffHook for Capture {
         old_len: usize,
         new_index: usize,
     ) -> (res: Result<(), Self::Error>)
+    /*@*/     ensures res.is_ok(), (*final(self)).ops_spec() == (*old(self)).ops_spec().push(DiffOp::Delete { old_index, old_len, new_index }),
     {
+        /*@*/ proof { lemma_evs_of_push(self.0@, DiffOp::Delete { old_index, old_len, new_index }); lemma_run_push(rel_true(), canon(0, 0, 0, 0), evs_of(self.0@), ev_of(DiffOp::Delete { old_index, old_len, new_index })); }
         self.0.push(DiffOp::Delete {
             old_index,
             old_len,
@@ -68,7 +116,9 @@ impl DiffHook for Capture {
         new_index: usize,
         new_len: usize,
     ) -> (res: Result<(), Self::Error>)
+    /*@*/     ensures res.is_ok(), (*final(self)).ops_spec() == (*old(self)).ops_spec().push(DiffOp::Insert { old_index, new_index, new_len }),
     {
+        /*@*/ proof { lemma_evs_of_push(self.0@, DiffOp::Insert { old_index, new_index, new_len }); lemma_run_push(rel_true(), canon(0, 0, 0, 0), evs_of(self.0@), ev_of(DiffOp::Insert { old_index, new_index, new_len })); }
         self.0.push(DiffOp::Insert {
             old_index,
             new_index,
@@ -85,7 +135,9 @@ impl DiffHook for Capture {
         new_index: usize,
         new_len: usize,
     ) -> (res: Result<(), Self::Error>)
+    /*@*/     ensures res.is_ok(), (*final(self)).ops_spec() == (*old(self)).ops_spec().push(DiffOp::Replace { old_index, old_len, new_index, new_len }),
     {
+        /*@*/ proof { lemma_evs_of_push(self.0@, DiffOp::Replace { old_index, old_len, new_index, new_len }); lemma_run_push(rel_true(), canon(0, 0, 0, 0), evs_of(self.0@), ev_of(DiffOp::Replace { old_index, old_len, new_index, new_len })); }
         self.0.push(DiffOp::Replace {
             old_index,
             old_len,
@@ -95,7 +147,10 @@ impl DiffHook for Capture {
         Ok(())
     }
 
-    fn finish(&mut self) -> Result<(), Self::Error> {
+    fn finish(&mut self) -> (res: Result<(), Self::Error>)
+    /*@*/     ensures res.is_ok(), (*final(self)).ops_spec() == (*old(self)).ops_spec(),
+    {
+        /*@*/ proof { assert(evs_of(self.0@) + Seq::<Ev>::empty() =~= evs_of(self.0@)); }
         Ok(())
     }
 }
